@@ -16,7 +16,8 @@ RULE = (
     "data (object, str, string[python], string[pyarrow], category with declared order != sorted and unobserved "
     "categories over string or integer categories, int8..int64, uint8..uint64, float32/64, bool) plus a float column "
     "and a second categorical; formulas v, v + a, v:a, v:B, a + v + v:a; outputs pandas/numpy/sparse x materializers "
-    "{pandas, narwhals on pandas, narwhals on pyarrow} x rank reduction. Oracle: R-encode (indicator columns in sorted "
+    "{pandas, narwhals on pandas, narwhals on pyarrow} x rank reduction x (string formula | one Formula object first "
+    "materialised on a frame where v has the other kind). Oracle: R-encode (indicator columns in sorted "
     "order for text, declared order for categorical dtype; numeric columns unchanged), names and values; every output "
     "has a numeric dtype (kind in b/i/u/f) and no string/object cell. Non-trivial = v is text or categorical; distinct "
     "by (dtype, values, formula, output, materializer, rank reduction)."
@@ -104,7 +105,26 @@ def check_case(case) -> Outcome:
         import pyarrow as pa
 
         data, kw = pa.Table.from_pandas(df, preserve_index=False), {}
-    mm = model_matrix(s, data, output=output, ensure_full_rank=efr, na_action=na, **kw)
+    if case.get("prime"):
+        # one Formula object, first materialised on a frame in which 'v' has the *other* kind: what it learnt there
+        # (a factor's kind, caches) must not decide how this frame's column is treated
+        from formulaic import Formula
+
+        out.label("primed-formula-object")
+        fobj = Formula(s)
+        n0 = len(df)
+        other = df.assign(v=np.arange(n0, dtype=float) if textual else pd.Series([["u", "w", "k"][i % 3] for i in range(n0)], dtype=object))
+        if mat == "nw-arrow":
+            import pyarrow as pa
+
+            other = pa.Table.from_pandas(other, preserve_index=False)
+        try:
+            fobj.get_model_matrix(other, output=output, ensure_full_rank=efr, na_action=na, context={}, **kw)
+        except Exception:
+            pass
+        mm = fobj.get_model_matrix(data, output=output, ensure_full_rank=efr, na_action=na, context={}, **kw)
+    else:
+        mm = model_matrix(s, data, output=output, ensure_full_rank=efr, na_action=na, **kw)
     names = list(mm.model_spec.column_names)
     raw = mm.toarray() if hasattr(mm, "toarray") else (mm.to_numpy() if hasattr(mm, "to_numpy") else np.asarray(mm))
     # numeric dtype everywhere
@@ -161,6 +181,7 @@ def gen():
             "mat": draw(st.sampled_from(["pandas", "pandas", "nw-pandas", "nw-arrow"])),
             "output": draw(st.sampled_from(["pandas", "numpy", "sparse"])), "efr": draw(st.booleans()),
             "nulls": draw(st.one_of(st.just([]), st.just([]), st.lists(st.integers(0, 7), min_size=1, max_size=2))),
+            "prime": draw(st.integers(0, 4)) == 0,
             "na_action": draw(st.sampled_from(["drop", "drop", "ignore"])),
         }
 
